@@ -9,7 +9,14 @@ Facts:
     resolved from the package's const blocks);
   * option names of the static configuration: for every path at which the Go `Configuration` has a struct, the
     `koanf` tags of its fields vs. the `properties` of the schema object at the same path (free-form maps and
-    foreign types end the walk).
+    foreign types end the walk);
+  * mechanism types whose factory ignores the `config` it is handed (the parameter of the registered factory function
+    is `_`);
+  * options INSIDE a mechanism's `config`: not extracted but MEASURED on the running code by the check
+    (tools/props/c20.py, harness op `mech`: which names the real file validation refuses, which names the real type
+    factory refuses, per type and per place below `config`); the measurement is handed in as `--measured <json>` and
+    written into the same generated module (`mechOptionTable`). Without a measurement the table is empty and
+    `mechMeasured` is false, which fails the obligation.
 """
 import json
 import os
@@ -143,7 +150,23 @@ def cache_types(schema):
 
 
 def loader_mech_types():
+    return _loader_mech_facts()[0]
+
+
+def ignoring_mech_types():
+    """types whose registered factory function names its `config` parameter `_`: whatever stands there is ignored"""
+    return _loader_mech_facts()[1]
+
+
+_FACTS = None
+
+
+def _loader_mech_facts():
+    global _FACTS
+    if _FACTS is not None:
+        return _FACTS
     res = []
+    ignoring = []
     for cat, pkg in sorted(CATEGORIES.items()):
         d = os.path.join(REPO, "internal", "rules", "mechanisms", pkg)
         if not os.path.isdir(d):
@@ -157,23 +180,29 @@ def loader_mech_types():
             for m in re.finditer(r'(?m)^\s*([A-Z]\w*)\s*=\s*"([^"]*)"', src):
                 consts[m.group(1)] = m.group(2)
             n_calls = len(re.findall(r"\bregisterTypeFactory\(\s*\n?\s*func", src))
-            conds = re.findall(r"registerTypeFactory\(\s*func\([^)]*\)\s*\([^)]*\)\s*\{\s*if\s+([^{]*?)\s*\{\s*return\s+false\b", src)
+            conds = re.findall(r"registerTypeFactory\(\s*func\(([^)]*)\)\s*\([^)]*\)\s*\{\s*if\s+([^{]*?)\s*\{\s*return\s+false\b", src)
             if n_calls != len(conds):
                 die(f"{pkg}/{f}: registerTypeFactory call of an unknown shape")
-            for cond in conds:   # `typ != A` or `typ != A && typ != B ...`: the factory answers for A, B, ...
+            for params, cond in conds:   # `typ != A` or `typ != A && typ != B ...`: the factory answers for A, B, ...
+                names = [prm.strip().split()[0] for prm in params.split(",") if prm.strip()]
+                if len(names) != 4:
+                    die(f"{pkg}/{f}: factory function with {len(names)} parameters")
                 parts = [c.strip() for c in cond.split("&&")]
                 for part in parts:
                     m = re.fullmatch(r"typ\s*!=\s*(\w+)", part)
                     if not m:
                         die(f"{pkg}/{f}: type guard of an unknown shape: {cond!r}")
-                    registered.append(m.group(1))
+                    registered.append((m.group(1), names[3] == "_"))
         if not registered:
             die(f"{pkg}: no registered type factory found")
-        for c in registered:
+        for c, ign in registered:
             if c not in consts:
                 die(f"{pkg}: constant {c} not resolved")
             res.append((cat, consts[c]))
-    return sorted(set(res))
+            if ign:
+                ignoring.append((cat, consts[c]))
+    _FACTS = (sorted(set(res)), sorted(set(ignoring)))
+    return _FACTS
 
 
 FIELD_RE = re.compile(r'^\s*(\w+)\s+(\S.*?)\s+`([^`]*)`\s*$')
@@ -318,6 +347,24 @@ def lean_list(xs):
     return "[" + ", ".join(xs) + "]"
 
 
+def measured_rows():
+    """--measured <json>: {"rows": [[category, type, place, schemaClosed, [names], loaderClosed, [names]], ...]}"""
+    if "--measured" not in sys.argv:
+        return None
+    path = sys.argv[sys.argv.index("--measured") + 1]
+    try:
+        with open(path) as fh:
+            rows = json.load(fh)["rows"]
+    except Exception as e:  # noqa: BLE001
+        die(f"cannot read the measurement {path}: {e}")
+    for r in rows:
+        if not (isinstance(r, list) and len(r) == 7 and all(isinstance(r[i], str) for i in (0, 1, 2))
+                and isinstance(r[3], bool) and isinstance(r[5], bool)
+                and all(isinstance(k, str) for k in r[4] + r[6])):
+            die(f"measurement row of an unknown shape: {r!r}")
+    return sorted(rows)
+
+
 def main():
     schema = load_schema()
     sct, lct = cache_types(schema)
@@ -337,11 +384,27 @@ def main():
         for p, c, sk, lk in rows) + "]\n")
     out.append("/-- fields of the shared service struct that no handler of that service reads (not options of that service) -/")
     out.append("def unreadServiceFields : List (String × String) :=\n  " + lean_list(f"({lean_str(a)}, {lean_str(b)})" for a, b in unread) + "\n")
+    mrows = measured_rows()
+    ign = ignoring_mech_types()
+    out.append("/-- mechanism types whose registered factory ignores the `config` handed to it (parameter `_`) -/")
+    out.append("def ignoresConfig : List (String × String) :=\n  " + lean_list(f"({lean_str(a)}, {lean_str(b)})" for a, b in ign) + "\n")
+    out.append("/-- was the table below measured on the running code in this run? -/")
+    out.append(f"def mechMeasured : Bool := {'true' if mrows is not None else 'false'}\n")
+    out.append("/-- MEASURED on the real file validation and the real type factories (harness op `mech`), per mechanism type and\n"
+               "    place below its `config` (\"\" = the config itself, `endpoint.retry`, `expressions[0]`): does the file validation\n"
+               "    refuse names it does not know there, the candidate names it lets pass, does the type factory refuse names it\n"
+               "    does not read there, the candidate names it reads -/")
+    out.append("def mechOptionTable : List (String × String × String × Bool × List String × Bool × List String) :=\n  [" + ",\n   ".join(
+        f"({lean_str(c)}, {lean_str(t)}, {lean_str(pl)}, {'true' if sc else 'false'}, {lean_list(lean_str(k) for k in sn)}, "
+        f"{'true' if lc else 'false'}, {lean_list(lean_str(k) for k in ln)})"
+        for c, t, pl, sc, sn, lc, ln in (mrows or [])) + "]\n")
     out.append("end Heimdall.Gen.ConfigSchema")
-    os.makedirs(os.path.dirname(OUT), exist_ok=True)
-    with open(OUT, "w") as fh:
-        fh.write("\n".join(out) + "\n")
-    json.dump({"schemaMechTypes": smt, "loaderMechTypes": lmt, "optionTable": rows, "unread": unread}, sys.stdout)
+    if "--facts-only" not in sys.argv:
+        os.makedirs(os.path.dirname(OUT), exist_ok=True)
+        with open(OUT, "w") as fh:
+            fh.write("\n".join(out) + "\n")
+    json.dump({"schemaMechTypes": smt, "loaderMechTypes": lmt, "optionTable": rows, "unread": unread,
+               "ignoresConfig": ign, "mechOptionTable": mrows}, sys.stdout)
 
 
 if __name__ == "__main__":
